@@ -345,6 +345,10 @@ var boundaryTemplates = []struct {
 	{"t = 0\nfor x in [5, 20, 3] {\nif x > 10 {\nx = 10\n}\nt += x\n}\nprobe(t)", []string{"(i 18)"}, ""},
 	{"r = []\nfor x in [1, 2, 3] {\nx++\nr += x\n}\nprobe(r)", []string{"(l (i 2) (i 3) (i 4))"}, ""},
 	{"r = []\nfor x in [1, 2, 3] {\nvar x = x * 10\nr += x\n}\nprobe(r)", []string{"(l (i 10) (i 20) (i 30))"}, ""},
+	// the entries visited are the entries the map has when the loop starts: the body runs once per such entry, whatever it inserts
+	{"for round = 0; round < 10; round++ {\nm = {\"a\": 1, \"b\": 2, \"c\": 3, \"d\": 4}\nn = 0\nfor k, v in m {\nn++\nm[k + \"x\"] = v\nm[k + \"y\"] = v\n}\nprobe([n, len(m)])\n}",
+		[]string{"(l (i 4) (i 12))", "(l (i 4) (i 12))", "(l (i 4) (i 12))", "(l (i 4) (i 12))", "(l (i 4) (i 12))", "(l (i 4) (i 12))", "(l (i 4) (i 12))", "(l (i 4) (i 12))", "(l (i 4) (i 12))", "(l (i 4) (i 12))"}, ""},
+	{"idx = {\"k1\": \"v1\", \"k2\": \"v2\", \"k3\": \"v3\"}\nn = 0\nfor k in idx {\nn++\nidx[idx[k]] = k\n}\nprobe([n, len(idx)])", []string{"(l (i 3) (i 6))"}, ""},
 }
 
 func streamControl(o *Out, r *rand.Rand, n int, thorough bool) {
@@ -387,6 +391,25 @@ func streamControl(o *Out, r *rand.Rand, n int, thorough bool) {
 		if res.hung || res.panicked || strings.Join(res.trace, " ") != strings.Join(c.want, " ") || (c.wantErr == "") != (gotErr == "") || !strings.Contains(gotErr, c.wantErr) {
 			o.Fail(Failure{Oracle: "signals-stay-in-their-function", Key: "control-boundary:" + firstLine(c.src), Input: c.src,
 				Detail: fmt.Sprintf("expected trace %v and error %q; got trace %v and error %q", c.want, c.wantErr, res.trace, gotErr)})
+		}
+	}
+	// switch runs the first case EQUAL to its subject: equal as == says, for every pair of a mixed pool
+	swPool := []string{"\"404\"", "404", "\"1.5\"", "1.5", "\"true\"", "true", "false", "\"\"", "0", "nil", "\"abc\"", "1", "\"1\"", "\"0\"", "1.0", "[1]", "\"404 \""}
+	for _, a := range swPool {
+		for _, b := range swPool {
+			src := "if " + a + " == " + b + " {\nprobe(\"case\")\n} else {\nprobe(\"default\")\n}\nswitch " + a + " {\ncase " + b + ":\nprobe(\"case\")\ndefault:\nprobe(\"default\")\n}"
+			stmt, err := parser.ParseSrc(src)
+			if err != nil {
+				o.Fail(Failure{Oracle: "control-template-parses", Key: "control-template-parse", Input: src, Detail: err.Error()})
+				continue
+			}
+			res := runVM(stmt, -1, 3*time.Second)
+			o.Case(fmt.Sprintf("(run %d _ %s)", modelFuel, astser.Prog(stmt)), res.line, src, true)
+			o.Sum.Hist["switch-vs-equal"]++
+			if res.hung || res.panicked || res.err != nil || len(res.trace) != 2 || res.trace[0] != res.trace[1] {
+				o.Fail(Failure{Oracle: "switch-runs-the-equal-case", Key: "switch-vs-equal:" + a + ":" + b, Input: src,
+					Detail: fmt.Sprintf("the if on == and the switch must take the same arm; trace %v err %v", res.trace, res.err)})
+			}
 		}
 	}
 	for i := 0; i < n; i++ {
